@@ -15,6 +15,9 @@ RULE = ('for each BSD/Mach-trap decoder of call shape: K sentinel START tuples (
         '(decoder, START tuple, END tuple) cases')
 QUICK_SHARDS = 8
 THOROUGH_SHARDS = 16
+# parameters whose Darwin prototype is narrower than a register and that the tool shows as such (the only ones on the
+# unchanged tree): semaphore_timedwait_trap(mach_port_name_t wait_name, unsigned int sec, clock_res_t nsec)
+NARROW_PARAMETERS = {('MSC_semaphore_timedwait_trap', 1): 32}
 MARK = [b'/PMa/x', b'/PMb/y', b'/PMc/z', b'/PMd/w', b'/PMe/v', b'/PMf/u', b'/PMg/t']
 
 
@@ -33,6 +36,7 @@ def render_outer(name, start, end, lookups=(), junk=()):
 
 def sentinel_start(rng, name):
     words = domain.distinct_words(rng, 4)
+    words = [w | (1 << 63) if rng.random() < 0.5 else w for w in words]
     enums = domain.enum_positions(name)
     spec = domain.TABLE.get(name, {})
     for (w, idx), s in spec.items():
@@ -92,8 +96,18 @@ def check_decoder(res, ctx, rng, name):
             if v is None:
                 continue
             res.count('numeric_tokens_checked')
-            if k < 4 and v in render.renderings(start[k]):
-                continue
+            if k < 4:
+                w = start[k]
+                full = {w, w - (1 << 64) if w >> 63 else w}
+                if v in full:
+                    continue
+                if v in render.renderings(w):
+                    if (name, k) in NARROW_PARAMETERS and v == w & ((1 << NARROW_PARAMETERS[(name, k)]) - 1):
+                        res.count('declared_narrow_parameters')
+                        continue
+                    res.violation('c09-parameter-truncated', f'{name}: parameter {k} shows {tok}, only the low bits of the '
+                                  f'recorded argument {hex(w)} (= {w} / {w - (1 << 64) if w >> 63 else w}): {text0!r}', case)
+                    return
             others = [j for j in range(4) if j != k and v in render.renderings(start[j])]
             ends = [j for j in range(4) if v in render.renderings(end[j]) and end[j] != 0]
             if others:
@@ -204,8 +218,8 @@ def run(ctx):
                     'tokens': render.split_call(render_outer('BSC_pread', s, (0, 5, 0, 0)))[1]})
         res.sample({'decoder': 'BSC_ioctl', 'rendering': render_outer('BSC_ioctl', (3, 0x40087413, 0x1000, 0), (0, 0, 0, 0))})
     res.counters['decoders_in_scope'] = 0
-    res.assumptions += ['accepted renderings of a word: unsigned or signed value of its low 8/16/32/64 bits, in decimal '
-                        'or hexadecimal', 'position = index of the parameter token in the call part']
+    res.assumptions += ['accepted renderings of an argument: its unsigned or signed 64-bit value, in decimal or hexadecimal '
+                        '(narrower only for the parameters listed in NARROW_PARAMETERS)', 'position = index of the parameter token in the call part']
     res.require('numeric_tokens_checked', 100)
     res.require('single_word_replacements', 100)
     res.require('decoders_checked', 20)
